@@ -213,7 +213,7 @@ VARIANTS = [
         (B, "                await self._deliver(self, done_event, None, None)\n", "                await self.send(done_event)\n")],
       note="revert of the fix commit for finding 4"),
     V("c13-no-action-depth-test", {"C13": "R1"}, edits=[
-        (B, "        if depth > self.MAX_ACTION_DEPTH:\n", "        if False:\n")]),
+        (B, "        if depth > self.MAX_ACTION_DEPTH or self._action_expansions > budget:\n", "        if False:\n")]),
     V("c13-raise-bypasses-deliver", {"C13": "R2", "C05": "R1"}, edits=[
         (I, "            await self._deliver(self, target_event, delay, params.get('id'))\n", "            await self.send(target_event)\n")]),
     V("c13-bound-not-max-iterations", {"C13": "R1"}, edits=[
@@ -376,7 +376,7 @@ VARIANTS = [
         (S, "    def send_events(self, events", "    def _enqueue(self, event_obj) -> None:\n        self._event_queue.append(event_obj)\n\n    def send_events(self, events")],
       note="enqueue moved into a private helper called from send()"),
     # ------------------------------------------------------------------ rules added after the second round of seeded changes
-    V("c12-restore-filters-ids", {"C12": "R7"}, edits=[
+    V("c12-restore-filters-ids", {"C12": "R7", "C01": "R10"}, edits=[
         (B, "        for state_id in restore_ids:\n", "        leaf_ids = snapshot.get('state_ids') or []\n        if leaf_ids:\n            restore_ids = [sid for sid in restore_ids if any((leaf == sid or leaf.startswith(f'{sid}.') for leaf in leaf_ids))]\n        for state_id in restore_ids:\n")],
       note="from_snapshot drops configuration entries no recorded leaf vouches for"),
     V("c08-timer-key-by-event-type", {"C08": "R3"}, edits=[
@@ -421,7 +421,7 @@ VARIANTS = [
             "            actor._unregister_from_system()\n            actor.stop()\n")],
       note="stopChild removes the registry entries through the child's own helper"),
     V("c13-depth-counter-reset-at-cut", {"C13": "R5"}, edits=[
-        (B, "        if depth > self.MAX_ACTION_DEPTH:\n            pass\n            return []\n", "        if depth > self.MAX_ACTION_DEPTH:\n            self._action_depth = 0\n            return []\n")]),
+        (B, "        if depth > self.MAX_ACTION_DEPTH or self._action_expansions > budget:\n            pass\n            return []\n", "        if depth > self.MAX_ACTION_DEPTH or self._action_expansions > budget:\n            self._action_depth = 0\n            return []\n")]),
     V("c18-walk-strips-own-key", {"C18": "R6"}, edits=[
         ("resolver.py", "    current = start_node\n    for key in path:\n", "    if path and path[0] == start_node.key:\n        path = path[1:]\n    current = start_node\n    for key in path:\n")]),
     V("silent-walk-copies-path", silent=["C18"], edits=[
@@ -436,6 +436,12 @@ VARIANTS = [
         ("cli/ir.py", "    tags = tuple((t for t in _as_list(config.get('tags')) if isinstance(t, str)))\n", "    tags = tuple({t for t in _as_list(config.get('tags')) if isinstance(t, str)})\n")]),
     V("silent-tags-deduplicated-in-order", silent=["C17"], edits=[
         ("cli/ir.py", "    tags = tuple((t for t in _as_list(config.get('tags')) if isinstance(t, str)))\n", "    tags = tuple(dict.fromkeys((t for t in _as_list(config.get('tags')) if isinstance(t, str))))\n")]),
+    V("c13-expansion-bound-depth-only", {"C13": "R6"}, edits=[
+        (B, "        if depth > self.MAX_ACTION_DEPTH or self._action_expansions > budget:\n", "        if depth > self.MAX_ACTION_DEPTH:\n")],
+      note="revert of the deciding line of fix commit 5d7869f"),
+    V("c13-expansion-budget-never-renewed", {"C13": "R6", "C12": "R2"}, edits=[
+        (B, "        if depth == 0:\n            self._action_expansions = 0\n        elif canonical in (PURE, CHOOSE, ENQUEUE_ACTIONS):\n", "        if canonical in (PURE, CHOOSE, ENQUEUE_ACTIONS):\n")],
+      note="the budget becomes a lifetime budget (and run state that is not persisted)"),
     # ================================================================== must stay silent
     V("silent-normal-form", silent=ALL, edits=[], note="whole tree re-emitted by ast.unparse: formatting, comments and line numbers all change"),
     V("silent-rename-local", silent=["C01", "C03", "C05", "C09", "C10"], edits=[
